@@ -1057,6 +1057,78 @@ fn wake_send_waiters<T>(waiters: &mut LinkedList<SendWaitQueueEntry<T>>) {''',
      'old': '''            self.buffer.len() != self.cap''',
      'new': '''            self.buffer.len() != self.buffer.capacity()''',
      'expect': {'C19': ['C19.R4'], 'C18': ['C18.B3']}},
+    # ---------------------------------------------------------------- C20
+    {'name': 'list-remove-last-keeps-prev-link', 'file': 'src/intrusive_double_linked_list.rs',
+     'old': '''            last_ref.prev = None;
+            last_ref.next = None;
+            Some(&mut *(last_ref as *mut ListNode<T>))''',
+     'new': '''            last_ref.next = None;
+            Some(&mut *(last_ref as *mut ListNode<T>))''',
+     'expect': {'C20': ['C20.R1']}},
+    {'name': 'heap-meld-greater-becomes-parent', 'file': 'src/intrusive_pairing_heap.rs',
+     'old': '''    if safe_lesser(&left.as_ref().data, &right.as_ref().data) {
+        add_child(left, right);
+        left
+    } else {
+        add_child(right, left);
+        right
+    }''',
+     'new': '''    if safe_lesser(&left.as_ref().data, &right.as_ref().data) {
+        add_child(right, left);
+        right
+    } else {
+        add_child(left, right);
+        left
+    }''',
+     'expect': {'C20': ['C20.R3']}},
+    {'name': 'list-remove-nonmember-returns-true', 'file': 'src/intrusive_double_linked_list.rs',
+     'old': '''                if self.head != Some(node.into()) {
+                    debug_assert!(node.next.is_none());
+                    return false;
+                }''',
+     'new': '''                if self.head != Some(node.into()) {
+                    debug_assert!(node.next.is_none());
+                    return self.head.is_none();
+                }''',
+     'expect': {'C20': ['C20.R4', 'C20.R2']}},
+    {'name': 'list-remove-first-forgets-tail', 'file': 'src/intrusive_double_linked_list.rs',
+     'old': '''                    debug_assert_eq!(Some(first_ref.into()), self.tail);
+                    self.tail = None;''',
+     'new': '''                    debug_assert_eq!(Some(first_ref.into()), self.tail);''',
+     'expect': {'C20': ['C20.R2']}},
+    {'name': 'list-add-front-no-back-link', 'file': 'src/intrusive_double_linked_list.rs',
+     'old': '''            Some(mut head) => head.as_mut().prev = Some(node.into()),''',
+     'new': '''            Some(mut head) => head.as_mut().prev = None,''',
+     'expect': {'C20': ['C20.R2']}},
+    {'name': 'heap-remove-keeps-first-child', 'file': 'src/intrusive_pairing_heap.rs',
+     'old': '''        if let Some(first_child) = node.first_child.take() {''',
+     'new': '''        if let Some(first_child) = node.first_child {''',
+     'expect': {'C20': ['C20.R1']}},
+    {'name': 'heap-remove-loses-children-at-root', 'file': 'src/intrusive_pairing_heap.rs',
+     'old': '''            } else {
+                self.root = Some(children);
+            }''',
+     'new': '''            } else {
+                self.root = Some(first_child);
+            }''',
+     'expect': {'C20': ['C20.R2']}},
+    {'name': 'heap-safe-lesser-le', 'file': 'src/intrusive_pairing_heap.rs',
+     'old': '''    let ordering = a < b;''',
+     'new': '''    let ordering = b < a;''',
+     'expect': {'C20': ['C20.R3']}},
+    {'name': 'list-reverse-drain-keeps-links', 'file': 'src/intrusive_double_linked_list.rs',
+     'old': '''                current = node_ref.prev;
+
+                node_ref.next = None;
+                node_ref.prev = None;''',
+     'new': '''                current = node_ref.prev;
+
+                node_ref.next = None;''',
+     'expect': {'C20': ['C20.R1']}},
+    {'name': 'heap-merge-children-left-to-right', 'file': 'src/intrusive_pairing_heap.rs',
+     'old': '''    let mut node = last_child(first_child);''',
+     'new': '''    let mut node = first_child;''',
+     'expect': {'C20': ['C20.R2']}},
 ]
 
 BENIGN = [
